@@ -122,7 +122,9 @@ def impl_case(args) -> dict:
         write_tree(proj, case["tree"])
         if case["carrier"] == "thailintignore":
             (proj / ".thailint.yaml").write_text(PROBE_CFG)
-            (proj / ".thailintignore").write_text("# repository ignores\n\n" + "".join(p + "\n" for p in patterns))
+            # (a third of the ignore files start with a byte-order mark, and then directly with the first pattern)
+            bom = "\ufeff" if (idx % 3 == 0) else ""
+            (proj / ".thailintignore").write_text(bom + ("" if bom else "# repository ignores\n\n") + "".join(p + "\n" for p in patterns), encoding="utf-8")
         else:
             (proj / ".thailint.yaml").write_text(PROBE_CFG + "ignore:\n" + "".join(f'  - "{p}"\n' for p in patterns) if patterns
                                                  else PROBE_CFG)
